@@ -1,4 +1,5 @@
 //! Bounded stand-in / failing-input search for unit U11 (EGraph::eq) — NOT a proof.
+//! functions: EGraph::eq
 //! Bound: the class of (f3 $x $y $z) with every set of at most 2 asserted symmetries out of the 6 argument
 //! permutations: eq on all 36 pairs of permuted invocations against the brute-force generated group; plus
 //! invocations with a different argument set and of a different class.
